@@ -82,13 +82,13 @@ def set_field_rows(rows, f, lists):
     return out
 
 
-def case_frame_field_assign(ctx, s: Subject):
+def case_frame_field_assign(ctx, s: Subject, form=None, label_pattern=None):
     from .ops_array import rand_field
     from .common import TYPES, dec_cell, weak
     rng = ctx.rng
     rows = s.content["rows"]
     n = len(rows)
-    labels = gen.rand_labels(rng, n)
+    labels = gen.rand_labels(rng, n, pattern=label_pattern)
     other = Subject(ctx, nrows=n, allow_hidden=False)
     nf = mk_frame(s, labels)
     nf["x"] = np.arange(n, dtype=np.float64) * 0.5
@@ -98,7 +98,7 @@ def case_frame_field_assign(ctx, s: Subject):
     total = sum(lens)
     f = rand_field(rng, s.ty)
     t = rng.choice(gen.TYNAMES)
-    form = rng.choice(["flat_array", "flat_series", "base_series", "scalar", "flat_list"])
+    form = form or rng.choice(["flat_array", "flat_series", "base_series", "scalar", "flat_list"])
     if form == "scalar" and t.startswith("timestamp"):
         form = "flat_array"
     if form in ("flat_array", "flat_series", "flat_list"):
